@@ -511,6 +511,12 @@ EXTRA5 = {
  "C02": dict(
   technique="; entries as bytes: every certificate of the 33 base chains at every position in 4 encodings (DER, padded serial / version INTEGER re-signed, padded length) x 5 trailers, and a trusted pool holding a padded root; every case realized in 4 frames of the time line (ordinary before / after the wall clock, 500..1950 and 2049..9999 with both ends of the int64-nanosecond range between leaf and CA NotAfter); 324 NotAfter windows as configured (start / limit absent or at 8 instants, 4 rests) x 8 leaves x every frame x 3 routes",
   note=" Named clauses PaddedIntegersRead, PaddedLengthRefused, PaddedPrecertRefused (observation: add-pre-chain refuses a padded precertificate leaf that ValidateChain accepts; fail-closed, the text is silent); laws EntryLaw, FrameFree, WindowIsTheText."),
+ "C05": dict(
+  technique="; form of the bytes of a signed log list / DigitallySigned blob as signed x as presented (plain, BOM / white space in front, white space / NUL behind, CRLF, letter case, re-serialised JSON: compact, reordered, escaped): exact bytes only, in both directions; normalising verifiers Strip(x) / Add(x) modelled and shown exposed by the table (TLC ASSUME NormExposed); the form is a component of the history layer",
+  note=" Named clauses ExactBytes, ListIsJSON (NewFromSignedJSON: verify, then parse; a parse refusal is not a verification failure)."),
+ "C09": dict(
+  technique="; family 'bound' of MCTLSCodec.tla (1836 cases): every tag bound at both ends of every width class, 0 included, for maxval, the three spellings of a vector tag, []uint16 and minlen = maxlen, as ...WithParams params, as a member, framed, and as a chosen or unchosen select arm; the random generator draws one-byte bounds from 0 and all tag spellings",
+  note=" Named clause MaxlenZeroIsWidth (maxlen:0 is read as 'no range given', symmetrically in both directions); the allocation bound adds 256 B per input byte for vectors of structs."),
 }
 for _pid, _e in EXTRA5.items():
     EXTRA4.setdefault(_pid, {})
